@@ -5,7 +5,7 @@
    per-transaction buffer/active/lock flags).  `serializable` is Txn.serializable: a permutation
    of the transactions of the history, consistent with real time, whose serial execution by the
    sequential specification (Txn.spec_step) returns every recorded result. *)
-From KV Require Import Bytes Txn TxnProofs.
+From KV Require Import Bytes Txn TxnProofs TxnFacts.
 Open Scope N_scope.
 
 (* all interleavings: any trace of the transition system, any number of transactions *)
@@ -81,3 +81,9 @@ Theorem C04_ser_check_sound : forall S0 h,
   ser_check S0 h = true -> serializable S0 h /\ hist_wf h.
 Proof. exact ser_check_sound. Qed.
 Print Assumptions C04_ser_check_sound.
+
+(* the methods of pkg/transaction still have the structure the model transcribes (facts
+   regenerated from the Go source by gofacts on every run) *)
+Theorem C04_code_facts : code_facts.
+Proof. exact code_facts_hold. Qed.
+Print Assumptions C04_code_facts.
